@@ -79,6 +79,11 @@ func Lookalikes(level int) []*tv.Package {
 	add("log/last-statement", "func FN(p *Pt) {\n\tp.X = 1\n\tlog.Println(\"done\")\n}")
 	add("log/before-return-in-then", "func FN(x uint64) uint64 {\n\tif x > 1 {\n\t\tlog.Println(\"big\")\n\t\treturn 1\n\t}\n\treturn 2\n}")
 	add("log/two-in-a-row", "func FN(x uint64) uint64 {\n\tlog.Println(\"a\")\n\tlog.Println(\"b\")\n\treturn x\n}")
+	add("ctl/else-if-chain-of-returns-no-final-else", "func FN(on bool, a uint64, b uint64) uint64 {\n\tif on {\n\t\tif a > 10 {\n\t\t\treturn 1\n\t\t} else if b > 10 {\n\t\t\treturn 2\n\t\t}\n\t}\n\treturn a + b\n}")
+	add("ctl/else-if-chain-break-continue-in-loop", "func FN(xs []uint64, lim uint64) uint64 {\n\tvar hits uint64 = 0\n\tfor i := uint64(0); i < uint64(len(xs)); i++ {\n\t\tif xs[i] > 0 {\n\t\t\tif xs[i] > lim {\n\t\t\t\tbreak\n\t\t\t} else if xs[i] == lim {\n\t\t\t\tcontinue\n\t\t\t}\n\t\t}\n\t\thits = hits + 1\n\t}\n\treturn hits\n}")
+	add("ctl/else-returns-then-shadows", "func FN(amount uint64, express bool) uint64 {\n\tfee := amount / 10\n\tvar total uint64 = amount\n\tif express {\n\t\tfee := amount / 2\n\t\ttotal = total + fee\n\t} else {\n\t\treturn total\n\t}\n\treturn total + fee\n}")
+	add("ctl/else-breaks-then-shadows", "func FN(xs []uint64, step uint64) uint64 {\n\tvar sum uint64 = 0\n\tfor i := uint64(0); i < uint64(len(xs)); i++ {\n\t\tx := xs[i]\n\t\tif x > 0 {\n\t\t\tstep := x\n\t\t\tsum = sum + step\n\t\t} else {\n\t\t\tbreak\n\t\t}\n\t\tsum = sum + step\n\t}\n\treturn sum\n}")
+	add("ctl/three-level-if-return-fallthrough", "func FN(a uint64, b uint64, c uint64) uint64 {\n\tvar r uint64 = 0\n\tif a > 1 {\n\t\tif b > 1 {\n\t\t\tif c > 1 {\n\t\t\t\treturn 7\n\t\t\t}\n\t\t\tr = 1\n\t\t}\n\t\tr = r + 2\n\t}\n\treturn r\n}")
 	add("ctl/early-return-else-if", "func FN(x uint64) uint64 {\n\tvar r uint64 = 0\n\tif x > 3 {\n\t\treturn 1\n\t} else if x > 1 {\n\t\tr = 2\n\t}\n\treturn r\n}")
 	add("ctl/early-return-else-if-else", "func FN(x uint64) uint64 {\n\tvar r uint64 = 0\n\tif x > 3 {\n\t\treturn 1\n\t} else if x > 1 {\n\t\tr = 2\n\t} else {\n\t\tr = 3\n\t}\n\treturn r\n}")
 	add("ctl/break-else-if", "func FN(n uint64) uint64 {\n\tvar s uint64 = 0\n\tfor i := uint64(0); i < n; i++ {\n\t\tif i > 2 {\n\t\t\tbreak\n\t\t} else if i > 0 {\n\t\t\ts += 1\n\t\t}\n\t\ts += 10\n\t}\n\treturn s\n}", "small:n")
